@@ -119,7 +119,9 @@ def _walk(node):
 EXPRS = ["a", "a/b", "a/b/c", "a | b", "a/x | b/y | default", "exists:a/b", "exists:a/zz | a", "not:a", "not:a/b", "nocall:f", "nocall:a/zz | f/b",
          "string:p ${a} q $b.", "string:$$ ${a/b | nothing}.", "seq/0", "seq/first | default", "seq/1 | nothing", "m/k", "m/zz | a", "f", "f/b",
          "not:exists:a/b", "exists:seq/first", "string:${seq/first}|", "n/x | a", "nothing", "default", "repeat/x | a", "attrs/k", "a/b | string:lit",
-         "path:a/b | b", "zz", "zz/y | n", "exists:zz", "not:zz", "string:${zz}${n}", "seq/-1 | a", "a/0 | b", "m/k/0 | default"]
+         "path:a/b | b", "zz", "zz/y | n", "exists:zz", "not:zz", "string:${zz}${n}", "seq/-1 | a", "a/0 | b", "m/k/0 | default",
+         # prefixes whose FIRST alternative exists and is followed by blanks before the bar
+         "exists:a | nothing", "nocall:f | a", "exists: m/k | zz", "nocall: a | b"]
 
 
 def body_tales(e: int, ak: int, bk: int, s: str, t: str, nseq: int, callf: bool) -> bool:
@@ -292,7 +294,7 @@ def obligations(tier, seed):
                       bounds="each used context value over kinds 0..%d of (nothing, default, string, number, '', [], [s], 0);" % K + " strings |s| <= %d over {< & \" a}; repeat of 0..2 items (missing key / string)" % n,
                       functions=["simpletal.simpleTAL.TemplateInterpreter.*", "simpletal.simpleTALES.Context.evaluate/traversePath"]))
     for e in range(len(EXPRS)):
-        if tier == "quick" and e % 3 != 0 and e not in (13, 14, 15, 37):
+        if tier == "quick" and e % 3 != 0 and e not in (13, 14, 15, 37, 38, 39, 40, 41):
             continue
         ex = EXPRS[e]
         import re as _re
